@@ -63,6 +63,15 @@ def _model_values(model, inputs):
     return vals
 
 
+def _is_equation(h):
+    import z3
+    if z3.is_eq(h) and not z3.is_bool(h.children()[0]):
+        return True
+    if z3.is_and(h):
+        return any(_is_equation(c) for c in h.children())
+    return False
+
+
 def _solver(timeout_ms):
     import z3
     s = z3.Solver()
@@ -157,10 +166,16 @@ def _prove_instance(obl, case, tier, known_witnesses, timeout_ms=60000):
             exc = e
             ctx._tb = traceback.format_exc(limit=10)
         return (list(ctx.pre), list(ctx.posts), dict(ctx.witnesses), dict(ctx.inputs), exc, list(ctx.used_stubs),
-                getattr(ctx, "_tb", ""))
+                getattr(ctx, "_tb", ""), dict(ctx.ranges), set(ctx.solved))
 
     budget = obl.budget or {}
     timeout_ms = budget.get("timeout_ms", timeout_ms)
+    from .sym import PathCtx
+    PathCtx.decide_timeout_ms = budget.get("decide_ms", 20000)
+    if "arith_solver" in budget:
+        # 2 = z3's legacy arithmetic solver: weaker on floor / mixed integer reasoning but free of the nla::core monomial patching of the
+        # default solver (6), which on bilinear systems with large rationals can run for minutes without polling its timeout
+        z3.set_param("smt.arith.solver", int(budget["arith_solver"]))
     try:
         paths = explore(run_once, max_paths=budget.get("paths", 256))
     except Unsupported as e:
@@ -178,16 +193,24 @@ def _prove_instance(obl, case, tier, known_witnesses, timeout_ms=60000):
     outside_feasible = False
     t0 = time.time()
     for p in paths:
-        pre, posts, wits, inputs, exc, used, tb = p.value if p.value is not None else ([], [], {}, {}, p.exc, [], "")
+        pre, posts, wits, inputs, exc, used, tb, ranges, solved = p.value if p.value is not None else ([], [], {}, {}, p.exc, [], "", {}, set())
         stubs_used.update(used)
         if exc == "reject":
             continue
         hyps = list(pre) + list(p.pc)
         s = _solver(timeout_ms)
         s.add(*hyps)
+        s.set("timeout", min(timeout_ms, 5000))
         r = s.check()
+        s.set("timeout", timeout_ms)
         if r == z3.unsat:
             continue   # infeasible path
+        if r != z3.sat and not covered:
+            # satisfiability of pre ∧ path is nonlinear: show it by specialisation - sample the declared parameters inside their
+            # declared ranges, leave the stub outputs that are determined by equations free (the rest is linear) and ask again
+            if _cover_by_sampling(hyps, inputs, ranges, solved):
+                r = z3.sat
+                res["cover_by_sampling"] = res.get("cover_by_sampling", 0) + 1
         covered = covered or r == z3.sat
         if known_witnesses and "*" not in known_witnesses:
             wl0 = [wits[w] if isinstance(wits[w], z3.BoolRef) else z3.BoolVal(bool(wits[w])) for w in known_witnesses if w in wits]
@@ -195,6 +218,8 @@ def _prove_instance(obl, case, tier, known_witnesses, timeout_ms=60000):
             outside_feasible = outside_feasible or s.check() != z3.unsat
             s.pop()
         # side obligations of shims (sqrt domain, nonsingular inverse) are part of the VC set
+        lite_hyps = [h for h in hyps if not _is_equation(h)]
+        has_eq_hyps = len(lite_hyps) < len(hyps)
         goals = [(f"side:{lab}", g) for lab, g in p.side]
         if exc is not None:
             goals.append(("<no exception>", z3.BoolVal(False)))
@@ -206,7 +231,20 @@ def _prove_instance(obl, case, tier, known_witnesses, timeout_ms=60000):
                 res["labels"].append(lab)
             s.push()
             s.add(z3.Not(g))
-            r = s.check()
+            # staged discharge: (1) short attempt with every hypothesis, (2) the same goal from the non-equational hypotheses only
+            # (bounds, signs: sound - fewer hypotheses - and immune to the irrelevant nonlinear equalities that derail z3's NRA
+            # heuristics), (3) full budget.  A model (sat) is only ever taken from a solver that holds all hypotheses.
+            r = z3.unknown
+            if has_eq_hyps:
+                lite = _solver(min(timeout_ms, 1500))
+                lite.add(*lite_hyps)
+                lite.add(z3.Not(g))
+                if lite.check() == z3.unsat:
+                    r = z3.unsat
+                    res["lite_vcs"] = res.get("lite_vcs", 0) + 1
+            if r == z3.unknown:
+                r = s.check()
+            s.set("timeout", timeout_ms)
             if r == z3.sat:
                 # known finding?  ask for a counterexample outside every listed witness predicate
                 outside = None
@@ -258,7 +296,7 @@ def _prove_instance(obl, case, tier, known_witnesses, timeout_ms=60000):
                     if ok_g:
                         res["groebner_vcs"] = res.get("groebner_vcs", 0) + 1
                         continue
-                except Exception as e:      # noqa: BLE001 - the fallback may only ever add proofs
+                except (Exception, _Timeout) as e:      # noqa: BLE001 - the fallback may only ever add proofs
                     res["groebner_error"] = f"{type(e).__name__}: {e}"
                 res.update(verdict="undecided", reason=f"solver {r} on {lab} ({s.reason_unknown()})")
                 res["solver_s"] = time.time() - t0
@@ -277,7 +315,35 @@ def _prove_instance(obl, case, tier, known_witnesses, timeout_ms=60000):
     return res
 
 
-class _Timeout(Exception):
+def _cover_by_sampling(hyps, inputs, ranges, solved, tries=6, timeout_ms=8000):
+    import z3
+    rng = random.Random(12345)
+    for _ in range(tries):
+        sub = []
+        for name, var in inputs.items():
+            if name in solved or name not in ranges:
+                continue
+            kind, lo, hi, pos, nonzero, sample = ranges[name]
+            slo, shi = sample if sample else (lo if lo is not None else (0.05 if pos else -8.0), hi if hi is not None else ((lo if lo is not None else 0) + 8.0))
+            if kind == "int":
+                val = z3.IntVal(rng.randint(int(slo), int(shi)))
+            else:
+                if pos and slo <= 0:
+                    slo = 0.05
+                k = rng.randrange(1, 1 << 8)
+                fr = Fraction(slo).limit_denominator(1 << 12) + (Fraction(shi).limit_denominator(1 << 12) - Fraction(slo).limit_denominator(1 << 12)) * Fraction(k, 1 << 8)
+                if nonzero and fr == 0:
+                    fr = Fraction(1, 64)
+                val = z3.RealVal(f"{fr.numerator}/{fr.denominator}")
+            sub.append((var, val))
+        s = _solver(timeout_ms)
+        s.add(*[z3.simplify(z3.substitute(h, *sub)) for h in hyps])
+        if s.check() == z3.sat:
+            return True
+    return False
+
+
+class _Timeout(BaseException):
     pass
 
 
@@ -374,9 +440,14 @@ def _worker(args):
             out.update(verdict="conc-fail", failed=bad[0].get("failed", []), values=bad[0]["inputs"],
                        exc=bad[0].get("exc"), tb=bad[0].get("tb"), witnesses=bad[0].get("witnesses", {}))
         return out
-    except Exception as e:
+    except (Exception, _Timeout) as e:
         out.update(verdict="crash", reason=f"{type(e).__name__}: {e}", tb=traceback.format_exc(limit=12))
         return out
+    except BaseException as e:      # Unsupported / PathBudget escaping outside the proof (e.g. raised by a contract in concrete mode)
+        if type(e).__name__ in ("Unsupported", "PathBudget"):
+            out.update(verdict="undecided", reason=f"{type(e).__name__}: {e}", tb=traceback.format_exc(limit=12))
+            return out
+        raise
     finally:
         out["wall_s"] = round(time.time() - t0, 3)
 
